@@ -446,9 +446,27 @@ func (st *shrinkState) shrinkOne(plan, sched []uint64, which int) ([]uint64, []u
 			break
 		}
 	}
-	// 2. zero blocks, 3. delete blocks
-	for _, bs := range []int{16, 8, 4, 2, 1} {
-		for i := 0; i+bs <= len(get()); i++ {
+	// 2. delete blocks, 3. zero blocks (large to small, strided)
+	sizes := []int{}
+	for bs := len(get()) / 2; bs > 16; bs /= 2 {
+		sizes = append(sizes, bs)
+	}
+	sizes = append(sizes, 16, 8, 4, 3, 2, 1)
+	for _, bs := range sizes {
+		stride := bs
+		if bs <= 4 {
+			stride = 1
+		}
+		for i := 0; i+bs <= len(get()); {
+			cur := get()
+			cand := append(cloneU(cur[:i]), cur[i+bs:]...)
+			if try(cand) {
+				improved = true
+				continue
+			}
+			i += stride
+		}
+		for i := 0; i+bs <= len(get()); i += stride {
 			cur := get()
 			allZero := true
 			for _, v := range cur[i : i+bs] {
@@ -465,15 +483,6 @@ func (st *shrinkState) shrinkOne(plan, sched []uint64, which int) ([]uint64, []u
 					improved = true
 				}
 			}
-		}
-		for i := 0; i+bs <= len(get()); {
-			cur := get()
-			cand := append(cloneU(cur[:i]), cur[i+bs:]...)
-			if try(cand) {
-				improved = true
-				continue
-			}
-			i++
 		}
 	}
 	// 4. lower single values
@@ -746,7 +755,7 @@ func firstLine(s string) string {
 }
 
 func reportViolation(s *Scenario, o BatchOpts, idx int, seed uint64, out Outcome) string {
-	plan, sched, execs := Minimise(s, o.Tier, seed, out.Plan, out.Sched, out.Viol, o.Known, 2000, 60*time.Second)
+	plan, sched, execs := Minimise(s, o.Tier, seed, out.Plan, out.Sched, out.Viol, o.Known, 30000, 90*time.Second)
 	final := RunOnce(s, o.Tier, seed, plan, sched, true, true)
 	min := true
 	if final.Viol == nil || final.Viol.Oracle != out.Viol.Oracle {
